@@ -16,7 +16,7 @@ import (
 // (lastGranted is a ghost: the volume granted by the previous response for
 // the group, 0 initially) and the consumer reports used <= lastGranted.
 //
-//gosx:property=C06 tier=quick shards=5 unwind=40 timeout=30000
+//gosx:property=C06 tier=quick shards=5 unwind=40 timeout=30000 maxseconds=2400
 func ZZ_C06_Step() {
 	zzSetup()
 	rg := vx.Int32("rg")
@@ -167,7 +167,7 @@ func ZZ_C06_TwoGroups() {
 // requests were not decided within the limits; cost 10..9999 is covered by
 // the one-step harness from an arbitrary state).
 //
-//gosx:property=C06 tier=quick shards=8 unwind=40 timeout=30000 p.steps=3 p.plainsteps=2 p.plainsteps.thorough=3 maxseconds=900 maxseconds.thorough=3000
+//gosx:property=C06 tier=quick shards=8 unwind=40 timeout=30000 p.steps=3 p.plainsteps=2 p.plainsteps.thorough=3 maxseconds=2400 maxseconds.thorough=3000
 func ZZ_C06_History() {
 	zzSetup()
 	rg := int32(1)
